@@ -19,6 +19,7 @@ def cPanic (p : Panic) : Int := -(100 + (p.code : Int))
 def obsOf (r : Res Obs) : Obs := match r with | .ok o => o | .error p => [cPanic p]
 
 def fnv (h : UInt64) (c : Int) : UInt64 :=
+  let c := if c ≤ -100 then -100 else c      -- every panic is the same cell in a digest (sites are compared line by line)
   let x : UInt64 := if c ≥ 0 then UInt64.ofNat c.toNat else (0 : UInt64) - UInt64.ofNat (-c).toNat
   (h ^^^ x) * 0x100000001b3
 def fnvInit : UInt64 := 0xcbf29ce484222325
